@@ -35,7 +35,7 @@ SPEC = dict(
     assumptions=["bvmon/ref_v1.py renders/reads the legacy parts from their documented composites",
                  "{iso_week}/{us_week} and the zero-padded {MM}/{PPP}/{BBB} families are outside the statement"],
     required=["roundtrips", "test_accepted", "chain_steps", "pycalver_string_order_checks", "updates_ok",
-              "dispatch_checked", "short_roundtrips"],
+              "dispatch_checked", "short_roundtrips", "legacy_pin_date_cases"],
     anchors=[("v1version", "parse_version_info"), ("v1version", "format_version"), ("v1version", "incr"),
              ("cli", "incr_dispatch"), ("v1patterns", "_compile_pattern_re")],
 )
@@ -190,7 +190,11 @@ def run_case(ctx, case):
         if ref_v1.parse(ast, old) is None:
             raise harness.Skip("start-not-readable-by-model")
         date = d + dt.timedelta(R.choice([0, 0, 1, 31, 366, -1, -400]))
-        args = ["test", old, p] + flags_for(R, p) + ["--date", date.isoformat()]
+        if R.random() < 0.15:
+            args = ["test", old, p] + flags_for(R, p) + ["--pin-date"]
+            ctx.counters["legacy_pin_date_cases"] += 1
+        else:
+            args = ["test", old, p] + flags_for(R, p) + ["--date", date.isoformat()]
         res = harness.invoke(args)
         eng = contracts.engines_used(res.trace)
         ctx.counters["dispatch_checked"] += 1
@@ -202,6 +206,19 @@ def run_case(ctx, case):
             new = res.stdout_value("New Version: ")
             ctx.counters["test_accepted"] += 1
             gt_oracle(ctx, p, old, new, dict(case, argv=args))
+            # calendar parts: unchanged under --pin-date or when the bump date is earlier; else those of the date
+            nraw = ref_v1.parse(ast, new) if new else None
+            if nraw:
+                pinned = "--pin-date" in args or date < d
+                want = st if pinned else ref_v1.state_from_date(date)
+                for name, txt in nraw:
+                    f = ref_v1.FIELD[name]
+                    if f in ("year", "month", "dom", "doy", "quarter"):
+                        exp_txt = ref_v1.render_part(name, want)
+                        if txt != exp_txt:
+                            ctx.violation(classify(p, "legacy_calendar_part_wrong"), f"{args}: {name} is {txt!r}, expected "
+                                          f"{exp_txt!r} ({'kept' if pinned else 'from the date'})", case=case)
+                            break
         elif res.crash and not res.crash.startswith("OverflowError"):
             ctx.violation(classify(p, "test_crash"), f"{args}: {res.crash[:300]}", case=case)
         return
